@@ -15,7 +15,8 @@ from .common import attr, sub, var
 LEVEL_TEXT = ('Static decision of the structural necessary conditions: every evaluation is followed by the optimum '
               'update of the same item before anyone is notified; the update predicate is exactly "none yet, or '
               'higher index, or same index and smaller value"; the result is published on every path; the recorded '
-              'value is the holder the objective wrote for the same item and slot; holders are owned per item; '
+              'value is the holder the objective wrote for the same item and slot (also when a second routine of the search path '
+              'calls the objective directly: it evaluates at the point of the item whose holder it fills); holders are owned per item; '
               'only the evaluation routine and the (coherent) local refinement write trial fields; the point object of '
               'every search item is allocated by the library for that item (never a caller-supplied or shared object); outside constructors only the optimum updater '
               'stores into the best-trial slot of the Solution (the solving path; state-restoring entry points are '
@@ -563,7 +564,53 @@ def r04_9(ctx: Ctx):
     persist.rule_restore_agreement(ctx, 'R04.9')
 
 
+def r04_direct_evaluators(ctx: Ctx, cands):
+    """More than one routine of the search path calls Problem.Calculate.  Whatever else that means (the counters:
+    C03), the reported value equals the objective at the reported point only if each such call evaluates at the point
+    of the very item in whose holder it records the value."""
+    rid = 'R04.4'
+    roles = C.roles_of(ctx)
+    pcs = {roles.fq(x) for x in roles.problem_calcs}
+    n = 0
+    for c in cands:
+        for p in C.normal_paths(ctx.explorer(raw=True, unroll=1, max_paths=4000).explore(c)):
+            for ev in p.events:
+                if ev.kind != 'call' or ev.func is not c or \
+                        not any(isinstance(x, FuncInfo) and roles.fq(x) in pcs for x in ev.d['callees']):
+                    continue
+                n += 1
+                args = list(ev.d['args'])
+                if len(args) < 2 or not all(isinstance(a, RF) for a in args[:2]):
+                    raise AnalysisError(f'{rid}: the arguments of the evaluation in {c.short} cannot be read')
+                pt, holder = args[0], args[1]
+                ha = holder.single_atom()
+                # holder = <item>.functionValues[k]
+                item_k = None
+                if isinstance(ha, tuple) and ha[0] == 'sub' and isinstance(ha[1], tuple) and ha[1][0] == 'attr' and \
+                        ha[1][2] == 'functionValues':
+                    item_k = ha[1][1]
+                pa = pt.single_atom()
+                ok = item_k is not None and isinstance(pa, tuple) and pa[0] == 'attr' and pa[2] == 'point' and \
+                    C.strip_versions(pa[1]) == C.strip_versions(item_k)
+                if not ok and item_k is not None:
+                    # the item's point may be held under another name on the path: compare with the heap
+                    stored = p.state.heap.get((item_k, 'point'))
+                    ok = stored is not None and key_of(stored) == key_of(pt)
+                ctx.check(ok, rid, c.short, c.loc(ev.node),
+                          'the objective is evaluated at the point of the item whose holder receives the value',
+                          f'{c.short} evaluates the objective at {C.fmt(pt)[:60]} and records the value in '
+                          f'{C.fmt(holder)[:60]}: the holder belongs to an item whose point is a different object, so the '
+                          f'recorded value is not the objective at the recorded point',
+                          key=f'{rid}::{c.short}::evaluates-elsewhere')
+    ctx.floor(rid, 'direct evaluation calls of the search path', n, 2)
+
+
 def check(ctx: Ctx):
+    cands = C.roles_of(ctx).task_wrapper_candidates()
+    if len(cands) > 1:
+        ctx.rule('R04.4', 'several routines of the search path call Problem.Calculate: each evaluates at the point of the '
+                          'item in whose holder it records the value')
+        r04_direct_evaluators(ctx, cands)
     for rid, fn in (('R04.1', r04_1), ('R04.2', r04_2_3), ('R04.4', r04_4), ('R04.5', r04_5), ('R04.6', r04_6),
                     ('R04.7', r04_7)):
         if C.want(ctx, rid) or (rid == 'R04.2' and C.want(ctx, 'R04.3')):
